@@ -98,7 +98,8 @@ def main(argv=None):
         jobs = [j for j in jobs if re.search(args.only, j[0])]
     opts = dict(getattr(mod, "OPTS", {}))
     opts.setdefault("qtimeout", 20.0 if args.tier == "quick" else 60.0)
-    opts.setdefault("otimeout", 60.0 if args.tier == "quick" else 600.0)
+    opts.setdefault("otimeout", 30.0 if args.tier == "quick" else 300.0)
+    opts.setdefault("path_obligation_budget", 120.0 if args.tier == "quick" else 1500.0)
     max_paths = opts.pop("max_paths", 600 if args.tier == "quick" else 6000)
     budget = opts.pop("budget_s", 200 if args.tier == "quick" else 2400)
     res = explore.explore("harness." + prop, jobs, opts, workers=args.workers, max_paths=max_paths, budget_s=budget)
